@@ -624,3 +624,42 @@ Definition spawn_report (e : client_env) (rep : startup_report) : startup_report
 Definition server_reply (cap : N) (f : finished) : list N :=
   frame (encode_compile_response CompileStarted) ++
   (if blen (encode_finished f) <=? cap then frame (encode_finished f) else []).
+
+(* ================================================================================================
+   What "the client runs the original command itself" is (commands.rs handle_compile_response, the code
+   after the match): `creator.new_command_sync(exe).args(cmdline).current_dir(cwd)` spawned and waited
+   for — the child INHERITS the client's whole environment (not the filtered `env_vars` that were put
+   into the request: cmdline.rs drops SOURCE_DATE_EPOCH, PWD, LD_PRELOAD, ...) and the client's own
+   stdin/stdout/stderr (no pipes, no post-processing such as stripping colour escapes).               *)
+
+Definition env_list := list (list N * list N).
+
+Record local_run := {
+  lr_env : env_list;            (* environment of the compiler process *)
+  lr_stdio_inherited : bool;    (* the compiler writes to the client's own stdout / stderr *)
+}.
+
+Definition fallback_run (client_env sent_env : env_list) : local_run :=
+  {| lr_env := client_env; lr_stdio_inherited := true |}.
+
+(* ================================================================================================
+   Who owns a Unix socket PATH (server.rs start_server): a starting server unlinks whatever is at the
+   path and binds it (under the path's lock); a server that exits — after --stop-server and its drain —
+   does NOT touch the path.  So the path always leads to the server that bound it last.             *)
+
+Inductive sock_event := SBind (server : N) | SExit (server : N).
+
+Definition sock_step (owner : option N) (ev : sock_event) : option N :=
+  match ev with
+  | SBind s => Some s
+  | SExit _ => owner
+  end.
+
+Definition sock_owner (evs : list sock_event) : option N := fold_left sock_step evs None.
+
+Fixpoint last_bind (evs : list sock_event) (acc : option N) : option N :=
+  match evs with
+  | [] => acc
+  | SBind s :: r => last_bind r (Some s)
+  | SExit _ :: r => last_bind r acc
+  end.
